@@ -682,8 +682,10 @@ def check_obb(fx, R):
                 R.undecided('B2', '%s::isInside' % cname, 'containment idiom not recognised: %s' % (r,))
             else:
                 bad, n_ok, why = None, 0, None
-                for h in (0.0, 1.0, 2.5):
-                    for u in (-h - 1, -h, -h / 2, 0.0, h / 2, h, h + 1):
+                for h in (0.0, 1.0, 2.5, 2.0 ** -30):
+                    # inside, on the face, outside - and just outside the face by an amount that is small in absolute terms but far above the rounding of the operands (2^-30, and 2^-40 of a unit box):
+                    # "contains exactly when" leaves no absolute slack, whatever the size of the box
+                    for u in (-h - 1, -h, -h / 2, 0.0, h / 2, h, h + 1, h + 2.0 ** -30, -(h + 2.0 ** -30), h * (1 + 2.0 ** -20) if h else 2.0 ** -40, 26 * h if 0 < h < 1e-6 else h + 1):
                         try:
                             got = mini.Step(to_u).call(f['body'], {'u': u, 'h': h})
                         except mini.Unsupported as e:
@@ -700,7 +702,9 @@ def check_obb(fx, R):
                 elif bad:
                     R.violated('B2', 'OrientedBoundingBox::isInside:predicate', 'for a box-frame coordinate %g and half extent %g the predicate evaluates to %s, `|u| <= h` is %s%s [%s]' % (
                         bad[0], bad[1], bool(bad[2]), abs(bad[0]) <= bad[1],
-                        ' (0/0 is NaN and compares false: a box with a zero extent rejects the points of its own plate, its centre included)' if bad[1] == 0 else '', cname), fx.rel(f['loc']), 'E-STEP')
+                        ' (0/0 is NaN and compares false: a box with a zero extent rejects the points of its own plate, its centre included)' if bad[1] == 0 and not bad[2] else
+                        ' (the comparison carries an ABSOLUTE slack: points outside a face by less than it are reported inside, and a box smaller than the slack contains points many half-extents away)'
+                        if bad[2] and abs(bad[0]) > bad[1] else '', cname), fx.rel(f['loc']), 'E-STEP')
                 else:
                     R.holds('B2', '%s::isInside' % cname, 'predicate agrees with |u| <= h on %d witness cells (zero, unit and generic extents; inside, on the face, outside)' % n_ok, fx.rel(f['loc']), 'E-STEP')
         for g, want in (('getCenterPosition', C), ('getHalfWidthExtents', H)):
